@@ -3,11 +3,13 @@
 # tools/twwt.sh -d  removes all of them
 if [ "$1" = "-d" ]; then for d in /tmp/twfix/*; do git -C /repo worktree remove --force $d 2>/dev/null; done; rm -rf /tmp/twfix; git -C /repo worktree prune; exit 0; fi
 id=$1; shift
-wt=/tmp/twfix/$id
+pref=""; case $id in seeded/*) pref=seeded; id=${id#seeded/};; twins/*) pref=twins; id=${id#twins/};; esac
+wt=/tmp/twfix/$pref$id
 mkdir -p /tmp/twfix
 if [ ! -d $wt ]; then
   git -C /repo worktree add --detach $wt HEAD >/dev/null 2>&1
   p=/verif/twins/$id/patch.diff; [ -f $p ] || p=/verif/seeded/$id/patch.diff
+  [ -n "$pref" ] && p=/verif/$pref/$id/patch.diff
   (cd $wt && git apply $p) || echo "PATCH FAILED"
 fi
 cd /verif
